@@ -300,7 +300,7 @@ void run_C06(void) {
   const int th = G.thorough;
   for (unsigned k = 0; k <= 16; k++) {
     const uint64_t m = 1ull << k;
-    const unsigned reps = th ? (m <= 2048 ? 12 : (m <= 16384 ? 4 : 2)) : (m <= 2048 ? 1 : 1);
+    const unsigned reps = (G.valgrind ? 1 : (th ? (m <= 2048 ? 60 : (m <= 16384 ? 12 : 5)) : (m <= 2048 ? 4 : 2)));
     for (int layout = 0; layout < 2; layout++)
       for (int inverse = 0; inverse < 2; inverse++)
         for (int impl = 0; impl < N_IMPL; impl++)
